@@ -193,8 +193,7 @@ def conditions(tier):
             for f in range(2 ** nj):
                 first = [bool(f & 1), bool(f & 2), bool(f & 4)]
                 conds.append({"name": f"index/e{e0}{e1}/first{f}", "func": "index", "shard": {"runs": 2, "jobs": nj, "endings": [e0, e1], "first": first}, "timeout": 600 if tier == "quick" else 3000})
-    if tier == "thorough":
-        for e in ([0, 1, 0], [1, 1, 0], [2, 1, 2], [1, 2, 0], [0, 2, 1]):
-            conds.append({"name": f"index/runs3-e{''.join(map(str, e))}", "func": "index", "shard": {"runs": 3, "jobs": 2, "endings": e, "first": [True, True, False]}, "timeout": 6000})
+    for e in ([0, 1, 0], [0, 2, 0]) if tier == "quick" else ([0, 1, 0], [0, 2, 0], [1, 1, 0], [2, 1, 2], [1, 2, 0], [0, 2, 1]):
+        conds.append({"name": f"index/runs3-e{''.join(map(str, e))}", "func": "index", "shard": {"runs": 3, "jobs": 2, "endings": e, "first": [True, True, False]}, "timeout": 900 if tier == "quick" else 6000})
     conds.append({"name": "exclusive", "func": "exclusive", "shard": {}, "timeout": 300})
     return conds
